@@ -9,7 +9,8 @@ from vlib import core
 
 PKG = "./lib/store/kv"
 OVERLAY = {"lib/store/kv/zz_verif_c12_test.go": "c12/kv_test.go",
-           "lib/store/kv/zz_verif_c12_wire_test.go": "c12/wire_test.go"}
+           "lib/store/kv/zz_verif_c12_wire_test.go": "c12/wire_test.go",
+           "lib/store/kv/zz_verif_c12_shard_test.go": "c12/shard_test.go"}
 W = 3       # TLC workers per generation run (4 runs in parallel)
 SIMW = 3    # TLC simulation workers (num traces are generated per worker)
 META = dict(
@@ -26,7 +27,10 @@ META = dict(
          "redis.Nil only on the absent read) and the pipeline's error must be the first failed command's error (go-redis' "
          "documented rule); (ii) a context dimension: every modelled method in its Ctx form with a context that is already "
          "cancelled / past its deadline must return the context's error, put nothing on the wire and leave the keyspace "
-         "unchanged (what go-redis does for the same call). A second TLA+ "
+         "unchanged (what go-redis does for the same call). A fault model (ShardedDel) covers "
+         "the multi-key delete with one of three shards down: every order of 1-3 keys spanning the shards; every named key "
+         "whose shard answers must be removed and counted, an error reported iff a named key's shard is down, checked by "
+         "count/error and by reading every key back after the shard has returned. A second TLA+ "
          "table (RedisWire) gives the canonical RESP command for every wrapper method incl. geo, HyperLogLog, BitOp*, "
          "BitPos, Scan family, scripts; TLC enumerates argument tuples and the command that reaches miniredis "
          "(pre-hook) is compared, and for every method the Ctx form with a dead context must send nothing and return the context's "
@@ -164,6 +168,7 @@ def run(ctx):
             ctx.replay(PKG, OVERLAY, "^TestVerifC12$", path, label=name, shards=16, binp=binp)
     wire_path, methods = wire(ctx, binp)
     brk(ctx, binp, wire_path, methods)
+    shard_del(ctx, binp)
 
 
 def wire(ctx, binp):
@@ -177,6 +182,18 @@ def wire(ctx, binp):
     ctx.notes["wire_methods_checked"] = len(methods)
     ctx.notes["wire_rows"] = n
     return path, methods
+
+
+def shard_del(ctx, binp):
+    """Fault histories of the sharded store's multi-key delete (spec/ShardedDel.tla): some keys set, one of three
+    shards closed, one Del over 1..3 keys in every order, shard back, read-back of every key."""
+    K = dict(Keys='<<"a","b","c">>', Home="<<1,2,3>>", Shards="{1,2,3}") if ctx.quick else \
+        dict(Keys='<<"a","b","c","d">>', Home="<<1,2,3,1>>", Shards="{1,2,3}")
+    cfg = core.render_cfg(spec="Spec", constants=K, invariants=["Emit"], properties=["DelRemovesEveryReachableKey"])
+    r = ctx.tlc("ShardedDel", cfg, constants=K, name="sharddel", timeout=600, workers=2, heap="2g")
+    path, _ = ctx.write_cases("sharddel.ndjson", r.printed)
+    ctx.samples += core.sample_of(r.printed[len(r.printed) // 2:], 1)[:1]
+    ctx.replay(PKG, OVERLAY, "^TestVerifC12ShardDel$", path, label="sharddel", shards=16, binp=binp)
 
 
 def guarded_entry_points():
@@ -226,7 +243,9 @@ def replay(ctx, rp):
     test = "^TestVerifC12$"
     if key.startswith("C12:wire"):
         test = "^TestVerifC12Wire$"
-    elif key.startswith("C12:breaker"):
+    elif key.startswith("C12:kv:del-fault"):
+        test = "^TestVerifC12ShardDel$"
+    elif key.startswith("C12:breaker") or key.startswith("C12:nil-reply"):
         test = "^TestVerifC12Breaker$"
     env = dict(VERIF_FORMS="both")
     if test == "^TestVerifC12Breaker$":
